@@ -318,20 +318,23 @@ class P(Prop):
         ("TracklibVerif.Props.C18", "TV.C18.cost_unit_invariant_real", "every point distance multiplied by c > 0, accumulation A + B**x: same coupling, score multiplied by c**x, for a power function multiplicative at c (the real one; exact arithmetic)"),
         ("TracklibVerif.Props.C18", "TV.C18.session_history_irrelevant_real", "session_history_irrelevant for the sessions the driver runs (runSeqX: p any positive number in any form), whatever B**x computes"),
         ("TracklibVerif.Props.C18", "TV.C18.match_real_history", "matchCallX (any p, modes DTW / FRECHET) on a track1 carrying the feature rows of an earlier matching returns what it returns on the same positions without features"),
-        ("TracklibVerif.Props.C18Fast", "TV.C18.session_history_irrelevant_fdtw", "sessions in EVERY mode, the fast variant (3 / 107) included (runSeqX: any constants, any exponent in any form, any dim): when every FDTW call is one the fast variant is good for (FastCallOK: the accumulation _p2weight returns is monotone and inflationary on the point distances of the two tracks, big above every candidate cost), every call returns what it returns on copies that never went through match"),
+        ("TracklibVerif.Props.C18Fast", "TV.C18.session_history_irrelevant_fdtw", "sessions in EVERY mode, the fast variant (3 / 107) included (runSeqX: any constants, any exponent in any form, any dim): when every FDTW call is one the fast variant is good for (FastCallOK: the accumulation _p2weight returns is monotone and inflationary on the point distances of the two tracks and big above every candidate cost — or just big above the accumulated cost of every partial coupling), every call returns what it returns on copies that never went through match"),
         ("TracklibVerif.Props.C18Fast", "TV.C18.match_fdtw_history_any", "match(m, track2, FDTW, p, dim) on a track m carrying the feature rows of an earlier matching is match on the same positions without features, for p in ANY form (numpy scalar, callable, exponent not a natural number) — generalises match_fdtw_history"),
         ("TracklibVerif.Props.C18Fast", "TV.C18.fast_call_ok", "FastCallOK over an ordered field, whatever the form of p: it holds when _distance is non-negative, B**x >= 0 on B >= 0 (only used for an exponent that is not a natural number) and big is above every candidate cost"),
         ("TracklibVerif.Props.C18Fast", "TV.C18.session_history_irrelevant_all", "session_history_irrelevant_fdtw with the hypotheses of match_fdtw_correct / match_fdtw_real_correct spelt out for the FDTW calls (non-negative distance, B**x >= 0, big above the candidate costs of every pair of tracks of the session)"),
+        ("TracklibVerif.Props.C18Fast", "TV.C18.fdtw_path_any", "T5b for ANY accumulation and ANY point distance (callable p of any shape, negative values of a callable dim, B**p wrapped in int64): when big (1e300) is above the accumulated cost of every partial coupling, _fdtw succeeds, its matching is a monotone unit-step coupling from the first to the last pair whose accumulated cost IS the reported score, pair/nb_links describe it, nobody left out (structural invariant of the best-first search, Lemmas/FDTWStruct.lean; optimality is fdtw_equal)"),
+        ("TracklibVerif.Props.C18Fast", "TV.C18.fast_call_ok_any", "FastCallOK (the hypothesis of session_history_irrelevant_fdtw / match_fdtw_history_any) holds as soon as big is above every partial coupling cost, whatever _p2weight and _distance return: no monotonicity, no sign condition"),
         ("TracklibVerif.Props.C18Fast", "TV.C18.fast_hyp_check_sound", "the executable monitor the driver runs on every generated single call of the modes DTW / FDTW (C18.hyp, fastHypCheck in Float with B**x = Float.pow: every point distance >= 0, weight(0, B) >= 0, every candidate cost weight(T[i,j], D[i',j']) < 1e300) is sound: when it accepts, the hypotheses of fdtw_equal / match_fdtw_correct / match_fdtw_real_correct / session_history_irrelevant_fdtw hold, for every accumulation _p2weight can return"),
         ("TracklibVerif.Props.C18Int64", "TV.C18.int64_power", "B**k on numpy.int64 (k wrapped multiplications, any order) is the exact power reduced modulo 2^64 into [-2^63, 2^63), and the exact power when 0 <= B and B^k < 2^63"),
         ("TracklibVerif.Props.C18Int64", "TV.C18.int64_power_bounds", "B**2 fits int64 for 0 <= B <= 3037000499, B**3 for 0 <= B <= 2097151; 3037000500**2 and 2097152**3 already wrap to negative numbers"),
         ("TracklibVerif.Props.C18Int64", "TV.C18.match_fdtw_int64_exact", "match(track1, track2, FDTW, p = k >= 1, dim) on numpy.int64 coordinates (matchFdtw64: B**k in int64) returns exactly what it returns on float / Python-int coordinates when every point distance B between the two tracks is a non-negative integer with B^k < 2^63"),
         ("TracklibVerif.Props.C18Int64", "TV.C18.match_fdtw_int64_correct", "under that bound (and the hypotheses of match_fdtw_correct) the int64 run succeeds, reports the score of mode DTW = the least sum of d^k over all couplings, and its S is a coupling realising it"),
+        ("TracklibVerif.Props.C18Int64", "TV.C18.match_fdtw_int64_any", "above the bound the int64 run still succeeds and returns a coupling linking everyone whose accumulated cost — the sum of the WRAPPED B**k along it — is the reported score (big above the wrapped partial costs): what is lost is optimality with respect to the true powers"),
         ("TracklibVerif.Props.C18Int64", "TV.C18.fdtw_int64_witness", "the witness of the finding fdtw-numpy-int-coordinates-power-overflow PROVED in the model: heights 0, 2200000 against 0, 0, p = 3, dim = 1: the int64 run returns -15597488147419103232 with the coupling [[0],[0,1]] (2200000**3 wraps to -7798744073709551616), the run on float coordinates 10648000000000000000 with [[0],[1]]"),
     ]
     partial = []
     open_statements = ["IEEE rounding: the theorems are over a linear order / ordered field; on the float runs the oracle compares with relative tolerance 1e-9 (no absolute tolerance: the check is the same in every unit of the coordinates)",
-                       "sessions that include the FDTW modes (3 / 107) are covered by session_history_irrelevant_fdtw / session_history_irrelevant_all under the hypotheses of match_fdtw_correct on every FDTW call (FastCallOK); without them (a callable dim returning negative numbers, accumulated costs reaching 1e300) nothing is claimed of FDTW, histories included. The proof goes through fdtw_spec; that the walk through the antecedent map is a coupling whenever the loop ends (which would do without monotonicity / inflation) is not proved",
+                       "sessions that include the FDTW modes (3 / 107) are covered by session_history_irrelevant_fdtw / session_history_irrelevant_all when every FDTW call is one the fast variant is good for (FastCallOK: the hypotheses of match_fdtw_correct, or merely 1e300 above the accumulated cost of every partial coupling — fdtw_path_any, any accumulation); when accumulated costs reach 1e300 (a first candidate cost not below the placeholder priority is never recorded: KeyError in the backward walk) nothing is claimed of FDTW, histories included",
                        "numpy.int64 coordinates (finding fdtw-numpy-int-coordinates-power-overflow): Model/DTWInt64.lean models B**p in int64 for match() in the mode FDTW with dim = 1 or a callable returning numpy.int64; match_fdtw_int64_exact gives the bound on the point distances under which it is exact; above it the driver's int64 run (C18.match64) is compared with the real code (correspondence only: the property is violated there). Not modelled: compare() on such inputs ((negative score / nb_links)**(1/p) = nan), the non-symmetric callable fn.lead (int64 or float distance depending on the pair), int64 overflow of the coordinate differences themselves (|z1 - z2| >= 2^63), the rounding of the wrapped integers to float64 in the cost table (theorems over an ordered field)",
                        "the swap clause on GeoCoords tracks with dim = 2 is false for fixes of different heights (finding geo-2d-distance-asymmetric): match_onesided is what holds there",
                        "exponents that are not natural numbers (p = 0.5, 1.5, ...): B**x is a parameter of the model (Float.pow in the driver); match_real_correct holds for any such function, match_fdtw_real_correct needs B**x >= 0 on B >= 0 — checked of Float.pow on the distances of every generated single call by the monitor C18.hyp (fast_hyp_check_sound), together with 'every candidate cost below 1e300'; unit_invariant (coordinates multiplied by c) is stated for natural exponents and infinity only (cost_unit_invariant_real is the statement on the point distances for the other exponents)",
